@@ -267,7 +267,83 @@ def r10_8(ctx: Ctx) -> None:
     ctx.check(ok, "R10.8", m, m.node, "method names collected over all folders", "_get_method_names does not collect coders of ALL folders", construct="_get_method_names folders")
 
 
+NUMERIC_KEYS = {"digest", "uncompressed", "compressed", "lastwritetime", "creationtime", "lastaccesstime", "attributes", "maxsize"}
+NUMERIC_ACCESSORS = {"crc32", "uncompressed", "compressed", "lastwritetime", "creationtime", "lastaccesstime"}
+
+
+def _bare_truth_operands(e: ast.AST):
+    """sub-expressions whose TRUTH VALUE is consulted in e (operands of and/or/not, tests), not those inside comparisons."""
+    if isinstance(e, ast.BoolOp):
+        for v in e.values:
+            yield from _bare_truth_operands(v)
+    elif isinstance(e, ast.UnaryOp) and isinstance(e.op, ast.Not):
+        yield from _bare_truth_operands(e.operand)
+    elif isinstance(e, (ast.Compare,)):
+        return
+    else:
+        yield e
+
+
+def r10_9(ctx: Ctx) -> None:
+    """a member's stored numbers reach the listing unchanged: a legal value 0 (CRC32 0, size 0, FILETIME 0, attribute word 0) is
+    not a missing one.  (a) no accessor of ArchiveFile and no listing function decides on the TRUTHINESS of such a value;
+    (b) every per-member argument of FileInfo(...) in list() is computed in the current iteration (no value carried over from the
+    previous member)."""
+    cls = ctx.prog.cls("ArchiveFile", "py7zr")
+    funcs = list(cls.methods.values()) + [shared.szf(ctx, n) for n in ("list", "getinfo", "archiveinfo")]
+    n_acc = 0
+    for f in funcs:
+        def numeric(e: ast.AST) -> bool:
+            x = q.expand_locals(f, e)
+            if isinstance(x, ast.Call) and attr_tail(x) == "_get_property" and x.args and isinstance(x.args[0], ast.Constant) and x.args[0].value in NUMERIC_KEYS:
+                return True
+            if isinstance(x, ast.Call) and attr_tail(x) == "get" and x.args and isinstance(x.args[0], ast.Constant) and x.args[0].value in NUMERIC_KEYS:
+                return True
+            if isinstance(x, ast.Subscript) and isinstance(x.slice, ast.Constant) and x.slice.value in NUMERIC_KEYS and "file_info" in norm(x.value):
+                return True
+            return isinstance(x, ast.Attribute) and x.attr in NUMERIC_ACCESSORS and not (isinstance(x.value, ast.Name) and x.value.id == "self" and f.cls != "ArchiveFile")
+        for n in walk(f.node):
+            if isinstance(n, ast.Call) and attr_tail(n) == "_get_property":
+                n_acc += 1
+            tests = []
+            if isinstance(n, ast.BoolOp):
+                tests = list(n.values)
+            elif isinstance(n, (ast.If, ast.While, ast.IfExp)):
+                tests = [n.test]
+            elif isinstance(n, ast.UnaryOp) and isinstance(n.op, ast.Not):
+                tests = [n.operand]
+            for t in tests:
+                for op in _bare_truth_operands(t):
+                    if numeric(op):
+                        ctx.fail("R10.9", f, n, f"`{norm(op)}` (a stored number that may legally be 0) is tested for truthiness in `{norm(n)[:80]}`: a member whose CRC32 / size / time "
+                                 "stamp is 0 is listed as if the value were missing", construct=f"truthiness of {norm(op)}")
+    ctx.floor("R10.9", n_acc, 5, "_get_property accessors in ArchiveFile")
+    ctx.ok("R10.9", f"{n_acc} accessor reads inspected: none decides on the truthiness of a stored number")
+    # (b) loop-carried listing values
+    lf = shared.szf(ctx, "list")
+    cfg = cfg_of(lf.node)
+    for c in [c for c in q.calls(lf) if attr_tail(c) == "FileInfo"]:
+        lps = q.enclosing_loops(lf, c)
+        if not lps:
+            continue
+        lp = lps[0]
+        body_entry = next(s_ for s_ in cfg.by_ast[lp].succ if s_.kind == "body")
+        cn = q.node_for(lf, c)
+        for a in list(c.args) + [k.value for k in c.keywords]:
+            if not isinstance(a, ast.Name):
+                continue
+            defs_in = [n for n in ast.walk(lp) if isinstance(n, (ast.Assign, ast.AnnAssign, ast.AugAssign))
+                       and any(isinstance(t, ast.Name) and t.id == a.id for t in (n.targets if isinstance(n, ast.Assign) else [n.target]))]
+            if not defs_in:
+                continue  # loop-invariant
+            every = not cfg.reaches(body_entry, cn, avoid=[q.node_for(lf, d) for d in defs_in], normal_only=True)
+            ctx.check(every, "R10.9", lf, c, f"list(): `{a.id}` is assigned on every path of the iteration that reports it",
+                      f"list() reports `{a.id}` for a member although some path of the iteration does not assign it: the member is listed with the value "
+                      "computed for the PREVIOUS member (e.g. a member without a time stamp shows its predecessor's)", construct=f"loop-carried {a.id}")
+
+
 def run(ctx: Ctx) -> None:
+    r10_9(ctx)
     r10_1(ctx)
     r10_2(ctx)
     r10_3(ctx)
